@@ -48,7 +48,7 @@ def ctor_strategy():
             a = draw(st.integers(0, n))
             b = draw(st.integers(a, n))
             spans.append([a, b, draw(st.sampled_from(PAL))])
-        return ["text", s, draw(style_opt()), spans]
+        return ["text", s, draw(style_opt()), spans, draw(st.sampled_from([8, 8, 4, 2, 3]))]
 
     styled = st.builds(lambda s, sty: ["styled", s, sty], text_str(), st.sampled_from(PAL))
     part = st.one_of(text_str(6), st.tuples(text_str(6), st.sampled_from(PAL)).map(list))
@@ -80,7 +80,7 @@ def op_strategy():
         st.tuples(st.just("rstrip"), i),
         st.tuples(st.just("rstrip_end"), i, st.integers(0, 20)),
         st.tuples(st.just("set_length"), i, st.integers(0, 24)),
-        st.tuples(st.just("expand_tabs"), i, st.integers(1, 8)),
+        st.tuples(st.just("expand_tabs"), i, st.one_of(st.integers(1, 8), st.none())),
         st.tuples(st.just("copy"), i),
         st.tuples(st.just("stylize"), i, st.sampled_from(PAL), off, st.one_of(st.none(), off)),
         st.tuples(st.just("stylize"), i, st.sampled_from(PAL), off, st.one_of(st.none(), off)),
@@ -100,9 +100,12 @@ def build_ctor(c):
 
     kind = c[0]
     if kind == "text":
-        _, s, base, spans = c
-        t = sut(Text, s, style=GS.build_style(base) if base else "", spans=[Span(a, b, GS.build_style(sty)) for a, b, sty in spans])
-        return t, TM.make(s, base, spans)
+        _, s, base, spans = c[:4]
+        tab = c[4] if len(c) > 4 else 8
+        t = sut(Text, s, style=GS.build_style(base) if base else "", spans=[Span(a, b, GS.build_style(sty)) for a, b, sty in spans], tab_size=tab)
+        m = TM.make(s, base, spans)
+        m.tab = tab
+        return t, m
     if kind == "styled":
         _, s, sty = c
         t = sut(Text.styled, s, GS.build_style(sty))
@@ -225,7 +228,7 @@ class Histories(Part):
                     rm = rm.append_model(im)
                     if k < len(items) - 1:
                         rm = rm.append_model(m)
-                new = (r, rm)
+                new = (r, rm.without_tab())
             elif name == "split":
                 _, _, sep, incl, blank, pick = op
                 lines = list(sut(t.split, sep, include_separator=incl, allow_blank=blank))
@@ -251,7 +254,7 @@ class Histories(Part):
                     return
                 if lines:
                     k = pick % len(lines)
-                    new = (lines[k], m.slice(*pieces[k]))
+                    new = (lines[k], m.slice(*pieces[k]).without_tab())
             elif name == "divide":
                 offs = sorted(min(o, len(m)) for o in op[2])
                 lines = list(sut(t.divide, offs))
@@ -264,7 +267,7 @@ class Histories(Part):
                     if not compare(ctx, l, m.slice(a, b), desc + " piece [%d:%d]" % (a, b), "divide"):
                         return
                 k = op[3] % len(lines)
-                new = (lines[k], m.slice(*pieces[k]))
+                new = (lines[k], m.slice(*pieces[k]).without_tab())
             elif name == "index":
                 k = op[2]
                 s = m.plain
@@ -281,12 +284,12 @@ class Histories(Part):
                     return
                 r = sut(lambda: t[k])
                 kk = k if k >= 0 else len(s) + k
-                new = (r, m.slice(kk, kk + 1))
+                new = (r, m.slice(kk, kk + 1).without_tab())
             elif name == "slice":
                 a, b = op[2], op[3]
                 r = sut(lambda: t[a:b])
                 sa, sb, _ = slice(a, b).indices(len(m))
-                new = (r, m.slice(sa, max(sa, sb)))
+                new = (r, m.slice(sa, max(sa, sb)).without_tab())
             elif name in ("pad", "pad_left", "pad_right"):
                 _, _, cnt, c = op
                 sut(getattr(t, name), cnt, c)
@@ -367,7 +370,13 @@ class Histories(Part):
                     new = (t, m.slice(0, nl))
             elif name == "expand_tabs":
                 size = op[2]
-                sut(t.expand_tabs, size)
+                if size is None:
+                    if m.tab is None:
+                        continue  # this value came out of an operation that does not carry the tab size over
+                    sut(t.expand_tabs)
+                    size = m.tab
+                else:
+                    sut(t.expand_tabs, size)
                 chars = []
                 col = 0
                 for c, o in m.chars:
